@@ -4,6 +4,7 @@ import (
 	"fmt"
 	"go/token"
 	"go/types"
+	"os"
 	"sort"
 	"strings"
 
@@ -432,7 +433,7 @@ type reqOrigin struct {
 type lockAnalysis struct {
 	c            *C
 	flows        map[*ssa.Function]*LockFlow
-	reqs         map[*ssa.Function][]lockReq // requirements on callers: lock on parameter i
+	reqs         map[*ssa.Function][]lockReq   // requirements on callers: lock on parameter i
 	origins      map[*ssa.Function][]reqOrigin // the sites the requirements come from
 	fns          []*ssa.Function
 	closureEntry map[*ssa.Function]Set
@@ -885,7 +886,7 @@ func (la *lockAnalysis) run(rule string) {
 				if ok {
 					continue
 				}
-				if s.Kind == "keyspace" && !s.Write && advisoryGet(s.In) {
+				if s.Kind == "keyspace" && !s.Write && advisoryGet(s.In) && la.recheckedUnderLock(s) {
 					continue // an existence/type probe: no requirement on the callers (reported as advisory below)
 				}
 				if s.Kind == "call" && !s.Write && la.advisoryCall(s.In) {
@@ -918,7 +919,10 @@ func (la *lockAnalysis) run(rule string) {
 	for _, fn := range la.fns {
 		for _, s := range la.sites(fn) {
 			ok, detail := la.check(s)
-			if !ok && s.Kind == "keyspace" && !s.Write && advisoryGet(s.In) {
+			if os.Getenv("RG_DBG_LOCK") != "" && strings.Contains(fn.Name(), os.Getenv("RG_DBG_LOCK")) {
+				fmt.Fprintln(os.Stderr, "DBGLOCK", fn.Name(), s.Construct, s.Kind, s.Key, ok, detail)
+			}
+			if !ok && s.Kind == "keyspace" && !s.Write && advisoryGet(s.In) && la.recheckedUnderLock(s) {
 				c.Add(rule, fnName(fn), s.Construct, s.pos(), true, "advisory pre-check: result used only in a type/existence test (the read itself is atomic inside ConcurrentMap)")
 				nsites++
 				continue
@@ -934,7 +938,7 @@ func (la *lockAnalysis) run(rule string) {
 				nsites++
 				continue
 			}
-			if !ok && s.Kind == "keyspace" && !s.Write && advisoryGet(s.In) {
+			if !ok && s.Kind == "keyspace" && !s.Write && advisoryGet(s.In) && la.recheckedUnderLock(s) {
 				c.Add(rule, fnName(fn), s.Construct, s.pos(), true, "advisory pre-check: result used only in a type/existence test (the read itself is atomic inside ConcurrentMap)")
 				nsites++
 				continue
@@ -1205,4 +1209,19 @@ func (c *C) memdbWrapper(fn *ssa.Function) (fld string, ki int, meth string, ok 
 	}
 	c.mwrapMemo[fn0] = &[3]string{fld, fmt.Sprint(ki), meth}
 	return fld, ki, meth, true
+}
+
+// recheckedUnderLock: the unlocked probe s (an existence/type test of key) is a PRE-check: the same function looks the key
+// up again, or touches what is stored there, with the stripe held. A lone unlocked probe whose outcome becomes the
+// reply (EXISTS without the stripe) is not a pre-check of anything: it can answer from the middle of RENAME.
+func (la *lockAnalysis) recheckedUnderLock(s lockSite) bool {
+	for _, o := range la.sites(s.Fn) {
+		if o.In == s.In || o.Key != s.Key {
+			continue
+		}
+		if ok, _ := la.check(o); ok {
+			return true
+		}
+	}
+	return false
 }
